@@ -169,7 +169,8 @@ func checkC13(c *Check) {
 		execNil := r.ZeroF("ExecFile")
 		at := x.sel("execveat", nil)
 		ve := x.sel("execve", nil)
-		c.Cond(len(at) == 2 && len(ve) == 2, "4/fexecve", "exec-sites", p.Pos(r.Child.Pos()), "first attempt and retry loop each have an execveat and an execve arm", fmt.Sprintf("%d execveat / %d execve sites (expected 2/2)", len(at), len(ve)))
+		// one attempt site (a single loop: "try, and try again while busy") or two (first attempt + retry loop); each has both arms
+		c.Cond(len(at) >= 1 && len(at) == len(ve), "4/fexecve", "exec-sites", p.Pos(r.Child.Pos()), "every exec attempt site has an execveat and an execve arm", fmt.Sprintf("%d execveat / %d execve sites (expected the same number, at least one)", len(at), len(ve)))
 		for _, e := range at {
 			s, okS := r.cstrArg(e.arg(1))
 			fl, okF := e.argInt(4)
@@ -190,8 +191,12 @@ func checkC13(c *Check) {
 				first = append(first, e)
 			}
 		}
+		if len(first) == 0 {
+			// the first attempt is the first round of the retry loop (loop-carried conditions are not part of a guard)
+			first = append(append(first, at...), ve...)
+		}
 		x.valid("4/fexecve", "first-attempt-exactly-one", p.Pos(r.Child.Pos()), exactlyOne(guardsOf(first)), "every configuration reaches exactly one exec call", "some configuration reaches no exec call or two")
-		c.Expect("4/fexecve", 6)
+		c.Expect("4/fexecve", 5)
 	}
 }
 
